@@ -170,6 +170,7 @@ Fixpoint notry (s : stmt expr) : bool :=
   | SWhile _ b => nl b
   | SDoWhile b _ => nl b
   | SFor _ _ _ b => nl b
+  | SForIn _ _ b => nl b
   | SLabelled _ s => notry s
   | STry _ _ _ => false
   | SSwitch _ cs =>
@@ -535,7 +536,7 @@ Proof.
   set (a1 := bump a) in *.
   assert (Hok : forall y, notry y = true -> exec_ok (exec_o fuel) y).
   { intros y Hy a' L' k' Hp' Hk'. apply IH; assumption. }
-  destruct x as [e|l|e s1 s2|e body|body e|init test upd body|l|l|e|l x|e|b c f|e cases].
+  destruct x as [e|l|e s1 s2|e body|body e|init test upd body|l|l|e|l x|e|b c f|e cases|tgt src body].
   - pose proof (eval_sync e a1 k Hp1 Hk1) as H1.
     destruct (eval a1 e) as [a2 r2]; destruct (eval (erase a1) e) as [b2 r2'].
     destruct H1 as [(Hq & Hk2 & Hb & Hr)|(Hq & Hr & Hpf)]; cbn [fst snd] in *.
@@ -625,6 +626,12 @@ Proof.
       destruct (switch_target cases r) as [i|]; [|eapply prefix_of_extends; eassumption].
       eapply prefix_of_extends; [eapply prefix_of_extends; [exact Hpf|exact He]|].
       apply (oblock_extends _ (exec_extends fuel)).
+  - (* for-in *)
+    unfold enum. pose proof (eval_sync src a1 k Hp1 Hk1) as H1.
+    destruct (eval a1 src) as [a2 r2]; destruct (eval (erase a1) src) as [b2 r2'].
+    destruct H1 as [(Hq & Hk2 & Hb & Hr)|(Hq & Hr & Hpf)]; cbn [fst snd] in *.
+    + subst b2 r2'. destruct r2 as [v|x']; cbn [olevels]; sfin Hq Hk2.
+    + subst r2. right. cbn [fst snd]. repeat split; auto. destruct r2' as [v|x']; exact Hpf.
 Qed.
 
 (* ---------- whole programs ---------- *)
